@@ -98,6 +98,36 @@ def step (newlineArg : Option String) (linesep : Str) (order : List String)
   | .apply => applyPhases newlineArg linesep r order fs
   | _ => ⟨fs, none⟩
 
+/-! ## paths as shown in the diff header -/
+
+/-- `Path(s).parts` for a POSIX path string: `"/"` first for an absolute path, empty and `.`
+components dropped -/
+def partsOf (s : Str) : Path :=
+  let comps := ((String.ofList s).splitOn "/").filter fun c => c ≠ "" ∧ c ≠ "."
+  if s.head? = some '/' then "/" :: comps else comps
+
+/-- `str(Path(*parts))` -/
+def pathStr (p : Path) : Str :=
+  match p with
+  | [] => ['.']
+  | "/" :: rest => ('/' :: ("/".intercalate rest).toList)
+  | parts => ("/".intercalate parts).toList
+
+/-- `p.relative_to(project)` falling back to `p` (the `except ValueError` branch);
+`None` is shown as the empty string -/
+def displayPath (project : Path) : Option Path → Str
+  | none => []
+  | some p => pathStr (if project <+: p then p.drop project.length else p)
+
+/-- where `rename fs old new` puts the file that was at `q` -/
+def renamedPath (old new q : Path) : Path := if old <+: q then new ++ q.drop old.length else q
+
+/-- `calculate_to_path` in the two shapes the translator knows: `"string-prefix"` (string
+`startswith` / slicing on `str(path)`) and `"components"` (`to.joinpath(p.relative_to(from_))`) -/
+def toPath (mode : String) (renames : List (Path × Path)) (p : Path) : Path :=
+  if mode = "components" then renames.foldl (fun p r => renamedPath r.1 r.2 p) p
+  else partsOf (toPathStr (renames.map fun r => (pathStr r.1, pathStr r.2)) (pathStr p))
+
 /-! ## `until` position of extract_variable / extract_function -/
 
 inductive Exc where
